@@ -402,7 +402,7 @@ func mutC15() []mutant {
 		{Name: "d is only bounded when signing", File: "key.go", Rule: "R15.2",
 			Old: "\t\t\tif len(x) > size || len(y) > size || len(d) > size {", New: "\t\t\tif len(x) > size || len(y) > size || (op == KeyOpSign && len(d) > size) {"},
 		{Name: "symmetric key with empty k accepted", File: "key.go", Rule: "R15.2",
-			Old: "\t\tif len(k) == 0 {\n\t\t\treturn errReqParamsMissing\n\t\t}\n", New: ""},
+			Old: "\t\tif len(k) == 0 {\n\t\t\treturn errReqParamsMissing\n\t\t}\n", New: "\t\t_ = k\n"},
 		{Name: "alg type error ignored", File: "key.go", Rule: "R15.1",
 			Old: "\talg, _, err := decodeInt(tmp, keyLabelAlgorithm)\n\tif err != nil {\n\t\treturn fmt.Errorf(\"alg: %w\", err)\n\t}", New: "\talg, _, _ := decodeInt(tmp, keyLabelAlgorithm)"},
 		{Name: "PublicKey converts without the verify-op check", File: "key.go", Rule: "R15.4",
